@@ -63,27 +63,27 @@ func IsIMM64(op Op) bool {
 
 // IsAL returns true if op is the AL register.
 func IsAL(op Op) bool {
-	return op == reg.AL
+	return isphysical(op, reg.AL)
 }
 
 // IsCL returns true if op is the CL register.
 func IsCL(op Op) bool {
-	return op == reg.CL
+	return isphysical(op, reg.CL)
 }
 
 // IsAX returns true if op is the 16-bit AX register.
 func IsAX(op Op) bool {
-	return op == reg.AX
+	return isphysical(op, reg.AX)
 }
 
 // IsEAX returns true if op is the 32-bit EAX register.
 func IsEAX(op Op) bool {
-	return op == reg.EAX
+	return isphysical(op, reg.EAX)
 }
 
 // IsRAX returns true if op is the 64-bit RAX register.
 func IsRAX(op Op) bool {
-	return op == reg.RAX
+	return isphysical(op, reg.RAX)
 }
 
 // IsR8 returns true if op is an 8-bit general-purpose register.
@@ -118,7 +118,7 @@ func IsGP(op Op, n uint) bool {
 
 // IsXMM0 returns true if op is the X0 register.
 func IsXMM0(op Op) bool {
-	return op == reg.X0
+	return isphysical(op, reg.X0)
 }
 
 // IsXMM returns true if op is a 128-bit XMM register.
@@ -139,6 +139,14 @@ func IsZMM(op Op) bool {
 // IsK returns true if op is an Opmask register.
 func IsK(op Op) bool {
 	return IsRegisterKind(op, reg.KindOpmask)
+}
+
+// isphysical returns true if op is the physical register p. Registers are
+// compared by ID and mask, so that a register obtained by converting between
+// views (for example reg.RAX.As8L()) is recognized as well.
+func isphysical(op Op, p reg.Physical) bool {
+	r, ok := op.(reg.Register)
+	return ok && reg.Equal(r, p)
 }
 
 // IsRegisterKindSize returns true if op is a register of the given kind and size in bytes.
